@@ -165,4 +165,34 @@ theorem ref_roundtrip_query (plus : Bool) (s : Bytes) (h : QueryValueOk s) :
   rw [queryQuote_of_ok s h, pctDecode_pyQuote_query]
   exact (flatMap_congr_all query_byte s).symm
 
+/-! ## exactness of the D10 region: with `quote_plus`, every string containing a space is encoded differently -/
+theorem aws_no_plus_table : (List.range 256).all (fun n => (awsEncByte true (UInt8.ofNat n)).all (fun x => !(x == 0x2B))) = true := by
+  decide +kernel
+
+theorem aws_no_plus (s : Bytes) : ∀ x ∈ awsUriEncode true s, (x == 0x2B) = false := by
+  intro x hx
+  obtain ⟨b, _, hxb⟩ := List.mem_flatMap.mp hx
+  have := forall_byte (p := fun b => (awsEncByte true b).all (fun x => !(x == 0x2B))) aws_no_plus_table b
+  have h2 := List.all_eq_true.mp this x hxb
+  simpa using h2
+
+theorem quotePlus_has_plus (s : Bytes) (h : s.contains 0x20 = true) : 0x2B ∈ pyQuotePlus Gen.s3QuerySafeB s := by
+  unfold pyQuotePlus
+  rw [h]
+  simp only [↓reduceIte]
+  have hm : (0x20 : UInt8) ∈ s := by simpa using h
+  have h20 : (0x20 : UInt8) ∈ pyQuote (Gen.s3QuerySafeB ++ [0x20]) s := by
+    refine List.mem_flatMap.mpr ⟨0x20, hm, ?_⟩
+    have : pyQuoteByte (Gen.s3QuerySafeB ++ [0x20]) 0x20 = [0x20] := by decide
+    rw [this]; simp
+  exact List.mem_map.mpr ⟨0x20, h20, by decide⟩
+
+theorem queryQuote_ne_of_space (hv : Gen.s3QueryViaQuotePlus = true) (s : Bytes) (h : s.contains 0x20 = true) :
+    queryQuote s ≠ awsUriEncode true s := by
+  intro heq
+  have hp : 0x2B ∈ queryQuote s := by unfold queryQuote; rw [hv]; exact quotePlus_has_plus s h
+  rw [heq] at hp
+  have := aws_no_plus s _ hp
+  simp at this
+
 end Replicat.SigV4
